@@ -1,6 +1,6 @@
 #include "hm_common.hpp"
 using namespace hm;
-namespace {
+namespace hx_hmmap {
 namespace xp = xenium::policy;
 struct IdHash { std::size_t operator()(int k) const { return (std::size_t)k; } };
 struct ConstHash { template <class K> std::size_t operator()(const K&) const { return 7; } };
